@@ -35,7 +35,7 @@ CLAIMS = {
 CLAIMS["C11"] = ('Panic-freedom, bounded pre-allocation and loop progress of the real decoders. UNBOUNDED (Verus on extracted text, abstract reader with a ghost remaining-bytes count): read_segment_item_count / read_segment_positions / read_segment_items, MerkleProof::read, Vec<T>::read, the p2p list readers (Locator, PeerAddrs) -- no panic for any declared count and any input length, every with_capacity within 100_000 + 64*remaining bytes, results consume the stated number of bytes, the greedy Vec loop terminates. COMPLETE for inputs up to N bytes (Kani on the unmodified functions, symbolic length so every truncation offset): MerkleProof::read/from_hex, Segment::read, RangeProof/Commitment/Signature read, BinReader::read_fixed_bytes, read_multi. BOUNDED stand-ins, never counted as proved: Segment::validate and callees (mmr sizes and identifiers enumerated), util::from_hex on short strings.',
     VERUS_TB + KANI_TB + "Kani checks arithmetic with debug semantics and stops at a wrap (wrap sites listed in the evidence; behaviour beyond them unexplored); prunable segments with a CRoaring bitmap, zip handling, JSON bodies, Codec timing are outside.",
     'Verus loop contracts on extracted readers + Kani full-domain harnesses on the real crates + bounded harnesses for validators', "6 C11")
-CLAIMS["C01"] = ("Proof-level (Verus, unbounded) that grin's Rust code ASSEMBLES AND ENFORCES the balance equation over an abstract additive group: sum_commitments(overage) = outputs - inputs + overage*H for both signs of the overage and fails on i64::MIN; sum_kernel_excesses = (kernels, kernels + offset*G); verify_kernel_sums accepts iff the two sides are equal; TransactionBody::validate batch-verifies the range proof of EVERY output against that output's own commitment and the signature of every kernel (iterator loop with invariant); Transaction::validate / TransactionBody::validate_read / verify_features / Block::validate return Ok only if every listed rule was checked with the right operands (fee as overage for a tx, minus the subsidy and total-minus-previous offset for a block, coinbase check, lock heights, NRD rule); the overage operand of a transaction is exactly the sum of its kernels' 40-bit fees (Kani, 0..=3 kernels, all fee values); Extension::validate (full-state validation: Chain::validate, fast sync, PIBD) returns Ok only if verify_kernel_sums ran with header.total_overage(genesis had a reward) and header.total_kernel_offset() and, unless fast validation was requested, EVERY range proof and EVERY kernel signature was verified -- verify_kernel_signatures covers every leaf of the kernel MMR whatever the kernel count and batch size (loop invariant); pipe::verify_block_sums stores exactly the sums verified over (parent's stored sums + block); header overage == -60 grin, total_overage, reward (Kani, full domain). NOT decided: that libsecp256k1 implements the group, range proofs and signatures (cryptographic assumptions), and the 'after any accepted history' clause (stored sums vs full state across reorgs).",
+CLAIMS["C01"] = ("Proof-level (Verus, unbounded) that grin's Rust code ASSEMBLES AND ENFORCES the balance equation over an abstract additive group: sum_commitments(overage) = outputs - inputs + overage*H for both signs of the overage and fails on i64::MIN; sum_kernel_excesses = (kernels, kernels + offset*G); verify_kernel_sums accepts iff the two sides are equal; TransactionBody::validate batch-verifies the range proof of EVERY output against that output's own commitment and the signature of every kernel (iterator loop with invariant); Transaction::validate / TransactionBody::validate_read / verify_features / Block::validate return Ok only if every listed rule was checked with the right operands (fee as overage for a tx, minus the subsidy and total-minus-previous offset for a block, coinbase check, lock heights, NRD rule); the overage operand of a transaction is exactly the (saturating) sum, over ANY number of kernels, of the 40-bit fee fields of its fee-carrying kernels, coinbase kernels contributing nothing (Verus, the two fold closures verified verbatim; plus a refactor-robust Kani harness for 0..=3 kernels, all fee values); Extension::validate (full-state validation: Chain::validate, fast sync, PIBD) returns Ok only if verify_kernel_sums ran with header.total_overage(genesis had a reward) and header.total_kernel_offset() and, unless fast validation was requested, EVERY range proof and EVERY kernel signature was verified -- verify_kernel_signatures covers every leaf of the kernel MMR whatever the kernel count and batch size (loop invariant); pipe::verify_block_sums stores exactly the sums verified over (parent's stored sums + block); header overage == -60 grin, total_overage, reward (Kani, full domain). NOT decided: that libsecp256k1 implements the group, range proofs and signatures (cryptographic assumptions), and the 'after any accepted history' clause (stored sums vs full state across reorgs).",
     VERUS_TB + KANI_TB + "all commitment arithmetic is libsecp256k1 behind FFI: modelled by assumed group contracts; callees of the validators are uninterpreted predicates.",
     'Verus contracts on extracted real functions over an abstract group + conjunction-of-checks contracts; Kani for the scalar side', "6 C01")
 CLAIMS["C02"] = ("Proof-level (Verus) on the real code of (a) the unspent-leaf bitmap algebra: LeafSet add/remove change exactly one position, rewind(cutoff, rm) yields (old restricted to <= cutoff) union rm as a whole-view postcondition, discard restores the last flushed bitmap; (b) the single-input / single-output admission decision of UTXOView: validate_input returns (out, pos) only if the index maps the commitment to pos, the output MMR holds out at pos-1 and out's commitment is the input's; it fails when the commitment is not indexed or the leaf is gone; validate_output fails on an indexed, still-present duplicate; (c) the state changes of Extension: apply_input succeeds only on an unspent leaf and marks the same position spent in both the output and range-proof MMRs, apply_output refuses an indexed still-unspent duplicate commitment and otherwise pushes output and proof at the same position, apply_block returns Ok only if every output went through apply_output, the inputs passed validate_inputs against this extension's state, every resolved input went through apply_input and the position/spent indexes were updated for exactly those; input_pos_to_rewind (the compaction / rewind protection set is the union of the per-block input bitmaps) and Batch::get_block_input_bitmap (that bitmap holds EXACTLY the positions of the block's spent index -- the real map closure verified as a lifted function); (d) the fork machinery: rewind_and_apply_header_fork / rewind_and_apply_fork rewind to the first common ancestor (of the header being applied / of the current head) and re-apply exactly the stored headers / blocks between that point and the target, oldest first, each block only after coinbase maturity, UTXO validation and block sums were re-verified (termination of the walks not proved); Extension::rewind undoes exactly the blocks above the target, newest first, through rewind_single_block, which rewinds the MMRs to the previous header's sizes handing over exactly the block's spent positions, removes every created output from the position index and restores the entry of every re-unspent output. The chain-level statement over forks, reorganisations, restart and compaction is a history property and is not decided.",
